@@ -68,9 +68,13 @@ Section Proto.
     | _ => s
     end.
 
-  Inductive paction := AR (i : nat) | AW (j : nat).
+  (* the environment may empty the cache at any time: expiry, memory pressure, flush *)
+  Definition evict_cache (s : pstate) : pstate :=
+    PSt (p_db s) None (p_started s) (p_completed s) (p_readers s) (p_writers s).
+
+  Inductive paction := AR (i : nat) | AW (j : nat) | AE.
   Definition pstep (s : pstate) (a : paction) : pstate :=
-    match a with AR i => step_reader s i | AW j => step_writer s j end.
+    match a with AR i => step_reader s i | AW j => step_writer s j | AE => evict_cache s end.
   Definition prun (s : pstate) (sched : list paction) : pstate := fold_left pstep sched s.
 
   (* a reader either consults the cache first (get, batch_get) or not (get_user_state) *)
@@ -107,7 +111,10 @@ Fixpoint advance (md : pmode) (fuel : nat) (s : pstate) (task : list op) : pstat
       else if op_parked s' o then (s', task) else advance md f s' task
     end
   end.
+(* schedule entry 9: the cache is flushed *)
 Definition release (md : pmode) (st : pstate * list (list op)) (t : nat) : pstate * list (list op) :=
+  if Nat.eqb t 9 then (evict_cache (fst st), snd st)
+  else
   match nth_error (snd st) t with
   | Some task => let '(s', task') := advance md 64 (fst st) task in (s', pupd (snd st) t task')
   | None => st
@@ -318,6 +325,15 @@ Proof.
     + intros _. destruct Hcache as [->| ->]; [right | left]; reflexivity.
 Qed.
 
+Lemma evict_keeps s : PInv s -> PInv (evict_cache s).
+Proof.
+  intros [Hc H1 Hr Hw Hca].
+  constructor; cbn [evict_cache p_db p_cache p_started p_completed p_readers p_writers]; [exact Hc | exact H1 | | | ].
+  - eapply Forall_impl'; [|exact Hr]. intros r. destruct r as [| |k|[m|]|[m|] w|w|w]; cbn [r_ok p_completed p_started p_db]; auto.
+  - eapply Forall_impl'; [|exact Hw]. intros w. destruct w; cbn [w_ok p_cache p_db]; auto.
+  - intros _. left. reflexivity.
+Qed.
+
 (* ------------------------------------------------------------------ every schedule *)
 Theorem ticket_protocol_coherent : forall d rs ws sched,
   let s := prun TicketLocked (pinit d rs ws) sched in
@@ -326,7 +342,7 @@ Proof.
   intros d rs ws sched. cbv zeta.
   assert (G : forall sched s0, PInv s0 -> PInv (prun TicketLocked s0 sched)).
   { induction sched0 as [|a rest IH]; intros s0 I0; [exact I0|]. cbn [prun fold_left]. apply IH.
-    destruct a as [i|j]; [apply reader_keeps | apply writer_keeps]; exact I0. }
+    destruct a as [i|j|]; [apply reader_keeps | apply writer_keeps | apply evict_keeps]; exact I0. }
   pose proof (G sched _ (init_inv d rs ws)) as I. split; [exact I|].
   intros Eq. apply (i_cache _ I). pose proof (i_count _ I). lia.
 Qed.
@@ -358,7 +374,8 @@ Proof.
   intros d rs ws tasks sched. cbv zeta. unfold trun.
   assert (G : forall l st, PInv (fst st) -> PInv (fst (fold_left (release TicketLocked) l st))).
   { induction l as [|t l IH]; intros st I0; [exact I0|]. cbn [fold_left]. apply IH.
-    unfold release. destruct (nth_error (snd st) t) as [task|]; [|exact I0].
+    unfold release. destruct (Nat.eqb t 9); [cbn [fst]; apply evict_keeps; exact I0|].
+    destruct (nth_error (snd st) t) as [task|]; [|exact I0].
     pose proof (advance_keeps 64 (fst st) task I0) as I1.
     destruct (advance TicketLocked 64 (fst st) task) as [s' task']. exact I1. }
   pose proof (G (seq 0 (length tasks) ++ sched) (pinit d rs ws, tasks) (init_inv d rs ws)) as I.
